@@ -233,8 +233,13 @@ def run_shard(spec, res):
                             nrec, len(data), shape, len(st['records']), st['error'], st['stuck'], len(bk['records']), bk['error']), {'records': nrec, 'shape': shape, 'leg': 'many-records'}, finding=None)
                     n = len(data)
                     parts = [[n], [65536] * (n // 65536) + ([n % 65536] if n % 65536 else []), [n // 2, n - n // 2], [10, n - 10], [n - 7, 7]]
-                    for asyncd in (False, True, 'lagging'):
+                    for asyncd in (False, True, 'lagging', 'latin-1'):
                         c = {'bytes_hex': data.hex(), 'encoding': 'utf-8', 'delim': ',', 'policy': 'quoted_rfc', 'comment_prefix': None, 'has_header': False, 'partitions': parts, 'async_delivery': bool(asyncd)}
+                        if asyncd == 'latin-1':
+                            # the same bytes (ASCII) read as latin-1 / binary: the whole file in one chunk, 64 KiB chunks, halves (chunks of hundreds of kilobytes)
+                            c['encoding'] = 'binary'
+                            c['async_delivery'] = False
+                            res.count('many_record_runs_latin1')
                         if asyncd == 'lagging':
                             # chunks of a few hundred bytes, one per event-loop turn, to a consumer that yields every few records: the backlog between
                             # producer and consumer grows to tens and hundreds of records and drains again, many times over
@@ -250,7 +255,7 @@ def run_shard(spec, res):
                             mm['case'] = dict(mm['case'], bytes_hex=mm['case']['bytes_hex'][:200])
                             for side in ('stream', 'bulk'):
                                 mm[side] = dict(mm[side], records='%d records' % len(mm[side].get('records') or []))
-                        report(res, o2, 'many-records(%d,%s,%s)' % (nrec, shape, {False: 'sync', True: 'async', 'lagging': 'async, lagging consumer'}[asyncd]))
+                        report(res, o2, 'many-records(%d,%s,%s)' % (nrec, shape, {False: 'sync', True: 'async', 'lagging': 'async, lagging consumer', 'latin-1': 'sync, latin-1'}[asyncd]))
             res.sample({'bigfile': '64 KiB +/- 3 bytes with a multi-byte character / CRLF / multi-line record straddling the default chunk boundary; 200 KiB file'})
         elif kind == 'random':
             alpha = ['a', 'b', '"', '"', ',', ',', '\n', '\r', '\r\n', '#', ' ', 'é', '€', '😀', '""', '\ufffd', '\uffff', '\u0800']
@@ -287,7 +292,7 @@ def summarize(tier, seed, m):
     return {
         'rule': 'every input of 1..%d bytes over {a, quote, comma, LF, CR, #} x all 2^(n-1) chunkings x policies {simple, quoted, quoted_rfc} x comment prefix {none, #} (utf-8 and binary), header on for n <= 4; %d UTF-8 samples with 2-, 3-, 4-byte characters and a leading BOM cut at every byte (all chunkings for samples up to 14 bytes in the quick tier / 18 bytes in the thorough tier; for longer samples every 1- and 2-cut chunking (thorough: also 3-cut and 20000 random chunkings) and byte-by-byte delivery); truncated / invalid sequences (both modes must reject); two stream iterators alive at the same time (the first chunk of the first cut at every byte offset, the second read completely in between), each compared with the bulk reading of its own content; files around the 64 KiB default chunk size through fs.createReadStream; files of 5000-150000 short records (down to two bytes per line: more than 20000 records per chunk) (thousands per chunk: the record queue grows in bursts) through fs.createReadStream, as one chunk, as 64 KiB chunks and with odd first / last chunks, delivered synchronously and one chunk per event-loop turn; random longer inputs. distinct_nontrivial = (input, configuration) pairs containing a line break, a quote or a multi-byte character.' % (MAXLEN[tier], len(utf8_samples())),
         'exhaustive': True,
-        'required': ['many_record_runs', 'many_record_runs_lagging_consumer', 'random_cases_with_lagging_consumer', 'overlap_runs', 'stream_runs', 'bulk_runs', 'utf8_sample_runs', 'bigfile_runs', 'faithful_delivery_traces'],
+        'required': ['many_record_runs', 'many_record_runs_lagging_consumer', 'many_record_runs_latin1', 'random_cases_with_lagging_consumer', 'overlap_runs', 'stream_runs', 'bulk_runs', 'utf8_sample_runs', 'bigfile_runs', 'faithful_delivery_traces'],
         'assumptions': ['the bulk reader is the reference for what the file contains (C18 ties it to the Python reader)',
                         'a reader is reported stuck when its promise is still pending 200 event-loop turns after the stream ended (logical time)'],
     }
